@@ -235,7 +235,12 @@ def incl_case(rng, root):
     for _ in range(rng.randrange(2, 7)):
         nm = rng.choice(names)
         x = rng.random()
-        if x < 0.45:
+        if x < 0.12:
+            # the same file under another spelling of its path
+            d2 = rng.choice([d for d in dirs if (d, nm) in content] or ['src'])
+            main.append('#include "%s"' % rng.choice(['./%s' % nm, '../%s/%s' % (d2, nm), '../src/../%s/%s' % (d2, nm), './/%s' % nm]))
+            feats.add('other-path-spelling')
+        elif x < 0.45:
             main.append('#include "%s"' % nm)
             feats.add('quote-include')
         elif x < 0.8:
@@ -257,6 +262,7 @@ def incl_case(rng, root):
     opts = []
     idirs = [d for d in ['inc1', 'inc2'] if rng.random() < 0.8]
     always_after = True
+    cwd = root
     rng.shuffle(idirs)
     for d in idirs:
         opts += ['-I' + os.path.join(root, d)] if rng.random() < 0.7 else ['-I', os.path.join(root, d)]
@@ -285,14 +291,20 @@ def incl_case(rng, root):
         feats.add('-D/-U order')
     if rng.random() < 0.3 and content:
         k = rng.choice([k for k in content if len(k) == 2])
-        opts += ['-include', os.path.join(root, k[0], k[1])]
-        feats.add('-include')
+        if rng.random() < 0.5:
+            opts += ['-include', os.path.join(root, k[0], k[1])]
+            feats.add('-include')
+        else:
+            # a bare name: looked for in the working directory first, then along the include path
+            opts += ['-include', rng.choice(names)]
+            cwd = os.path.join(root, rng.choice(dirs))
+            feats.add('-include relative name')
     # keep "-D" "NAME=V" pairs together when the option list is split around the -I options
     h = len(dopts) // 2
     if h and dopts[h - 1] == '-D':
         h += 1
     opts = dopts[:h] + opts + dopts[h:]
-    return os.path.join(root, 'src', 'main.c'), opts, feats
+    return os.path.join(root, 'src', 'main.c'), opts, feats, cwd
 
 
 def run_cond(a):
@@ -311,16 +323,16 @@ def run_incl(a):
     rng = random.Random(seed)
     root = os.path.join(work, 't%d' % idx)
     os.makedirs(root)
-    main, opts, feats = incl_case(rng, root)
-    rg = core.sh(['gcc', '-E', '-P', '-w', '-std=gnu11', main] + opts, timeout=20)
-    rc = core.sh(['clang', '-E', '-P', '-w', '-std=gnu11', main] + opts, timeout=20)
-    rx = core.sh([cc, '-E', main] + opts, env=core.SAN_ENV, timeout=20)
+    main, opts, feats, cwd = incl_case(rng, root)
+    rg = core.sh(['gcc', '-E', '-P', '-w', '-std=gnu11', main] + opts, timeout=20, cwd=cwd)
+    rc = core.sh(['clang', '-E', '-P', '-w', '-std=gnu11', main] + opts, timeout=20, cwd=cwd)
+    rx = core.sh([cc, '-E', main] + opts, env=core.SAN_ENV, timeout=20, cwd=cwd)
     tree = {}
     for dp, dn, fn in os.walk(root):
         for f in fn:
             tree[os.path.relpath(os.path.join(dp, f), root)] = open(os.path.join(dp, f)).read()
     shutil.rmtree(root, ignore_errors=True)
-    return idx, rg, rc, rx, feats, [o.replace(root, '$ROOT') for o in opts], tree
+    return idx, rg, rc, rx, feats, [o.replace(root, '$ROOT') for o in opts], tree, os.path.relpath(cwd, root)
 
 
 def compare(ctx, kind, feats, rg, rc, rx, files, script):
@@ -402,11 +414,11 @@ def run(ctx):
         ctx.evaluations += 1
         compare(ctx, 'cond', cases[idx][1], rg, rc, rx, {'case.c': cases[idx][0]}, script)
     m = ctx.scale(1200, 24000)
-    for idx, rg, rc, rx, feats, opts, tree in core.pmap(run_incl, [(i, cc, work, ctx.seed * 7919 + i) for i in range(m)], chunksize=8):
+    for idx, rg, rc, rx, feats, opts, tree, rcwd in core.pmap(run_incl, [(i, cc, work, ctx.seed * 7919 + i) for i in range(m)], chunksize=8):
         ctx.evaluations += 1
         files = dict(tree)
         files['options.txt'] = ' '.join(opts) + '\n'
-        sc = ('ROOT=$PWD; O=$(sed "s#\\$ROOT#$ROOT#g" options.txt); $CHIBICC -E src/main.c $O > got.txt; gcc -E -P -w src/main.c $O > ref.txt; python3 -c "import sys; sys.path.insert(0, \'$VERIF\'); '
+        sc = ('ROOT=$PWD; O=$(sed "s#\\$ROOT#$ROOT#g" options.txt); cd ' + rcwd + '; $CHIBICC -E $ROOT/src/main.c $O > $ROOT/got.txt; gcc -E -P -w $ROOT/src/main.c $O > $ROOT/ref.txt; cd $ROOT; python3 -c "import sys; sys.path.insert(0, \'$VERIF\'); '
               'from lib import pptok; sys.exit(0 if pptok.spellings(open(\'got.txt\').read()) == pptok.spellings(open(\'ref.txt\').read()) else 1)"')
         compare(ctx, 'incl', feats, rg, rc, rx, files, sc)
     ctx.sample({'cond_case': cases[0][0][:800]})
